@@ -466,7 +466,7 @@ func genC01(r *Rand, tier string) []Case {
 			// a long list of plain non-negative literals, some of them values of the integer column
 			col := Pick(r, t.numCols)
 			var items []*Expr
-			for k := 16 + r.Intn(10); k > 0; k-- {
+			for k := 16 + r.Intn(28); k > 0; k-- {
 				items = append(items, Num(math.Abs(t.numConst(r))))
 			}
 			p = &Expr{K: "in", Neg: r.Chance(30), A: Col(col), Items: items}
